@@ -333,6 +333,14 @@ func main() {
 		for k, v := range o.PerScenario {
 			agg.PerScenario[k] += v
 		}
+		for k, v := range o.OtherExamples {
+			if agg.OtherExamples == nil {
+				agg.OtherExamples = map[string]string{}
+			}
+			if _, ok := agg.OtherExamples[k]; !ok {
+				agg.OtherExamples[k] = v
+			}
+		}
 		for k, v := range o.OtherProps {
 			agg.OtherProps[k] += v
 		}
@@ -439,6 +447,7 @@ func main() {
 		"seed_base":                      seed,
 		"reported":                       reported,
 		"other_property_violations_seen": agg.OtherProps,
+		"other_property_examples":        agg.OtherExamples,
 		"troubles":                       troubles,
 	}
 	ev := evidence{PropertyID: prop, Tier: *tier, Seed: seed, Level: spec.Level, Coverage: cov, Assumptions: spec.Assumptions, WallS: wall, Violations: violations}
